@@ -619,4 +619,177 @@ theorem flat_count (x : Data) (T I J : Nat) (p : Rat → Bool) :
   apply sumR_congr; intro i _
   exact count_map_range J (fun j => x t i j) p
 
+/-! ### storage order: sums over the time axis do not depend on it -/
+
+theorem map_reindex {α : Type} (perm : List Nat) (g : Nat → α) :
+    (List.range perm.length).map (reindex perm g) = perm.map g := by
+  apply List.ext_getElem
+  · simp
+  · intro k h1 h2
+    simp only [List.length_map, List.length_range] at h1
+    simp [reindex, List.getD_eq_getElem?_getD, List.getElem?_eq_getElem h1]
+
+theorem perm_length {perm : List Nat} {T : Nat} (hp : perm.Perm (List.range T)) : perm.length = T := by
+  rw [hp.length_eq, List.length_range]
+
+/-- a sum over the time axis is the same in every storage order -/
+theorem sumR_reindex {α : Type} [AddCommMonoid α] (perm : List Nat) (T : Nat) (hp : perm.Perm (List.range T))
+    (g : Nat → α) : sumR T (reindex perm g) = sumR T g := by
+  unfold sumR
+  have h := map_reindex perm g
+  rw [perm_length hp] at h
+  rw [h]
+  exact (hp.map g).sum_eq
+
+theorem perm_lt {perm : List Nat} {T : Nat} (hp : perm.Perm (List.range T)) (t : Nat) (ht : t < T) :
+    perm.getD t 0 < T := by
+  have hl := perm_length hp
+  have : perm.getD t 0 ∈ perm := by
+    rw [List.getD_eq_getElem?_getD, List.getElem?_eq_getElem (by omega)]
+    exact List.getElem_mem _
+  exact List.mem_range.mp (hp.mem_iff.mp this)
+
+theorem sumYear_reindex {α : Type} [AddCommMonoid α] (perm : List Nat) (T : Nat) (hp : perm.Perm (List.range T))
+    (yr : Nat → Int) (y : Int) (f : Nat → α) :
+    sumYear (reindex perm yr) T y (reindex perm f) = sumYear yr T y f := by
+  rw [sumYear_eq, sumYear_eq]
+  exact sumR_reindex perm T hp (fun t => if yr t = y then f t else 0)
+
+theorem unique_perm (l1 l2 : List Int) (h : l1.Perm l2) : unique l1 = unique l2 := by
+  have hperm : (unique l1).Perm (unique l2) := by
+    rw [List.perm_ext_iff_of_nodup (nodup_unique l1) (nodup_unique l2)]
+    intro a
+    rw [mem_unique, mem_unique, h.mem_iff]
+  exact hperm.eq_of_pairwise (fun a b _ _ hab hba => Int.le_antisymm hab hba) (sorted_unique l1) (sorted_unique l2)
+
+theorem unique_years_reindex (perm : List Nat) (T : Nat) (hp : perm.Perm (List.range T)) (yr : Nat → Int) :
+    unique (yearList (reindex perm yr) T) = unique (yearList yr T) := by
+  apply unique_perm
+  unfold yearList
+  have h := map_reindex perm yr
+  rw [perm_length hp] at h
+  rw [h]
+  exact hp.map yr
+
+/-! ### counting through positions in the sorted sample -/
+
+theorem count_index_pred (s : List Rat) (p : Rat → Bool) : ∀ (q : Nat → Bool),
+    (∀ k (hk : k < s.length), p s[k] = q k) → (s.filter p).length = ((List.range s.length).filter q).length := by
+  induction s with
+  | nil => intro q _; simp
+  | cons a t ih =>
+    intro q h
+    have h0 : p a = q 0 := h 0 (by simp)
+    have ht := ih (fun k => q (k + 1)) (fun k hk => by
+      have := h (k + 1) (by simp; omega)
+      simpa using this)
+    rw [List.length_cons, List.range_succ_eq_map, List.filter_cons, List.filter_cons, List.filter_map, h0]
+    cases q 0 <;> simp [ht, Function.comp_def]
+
+theorem count_range_window (n a b : Nat) :
+    ((List.range n).filter (fun k => decide (a ≤ k ∧ k < b))).length = min b n - a := by
+  induction n with
+  | zero => simp
+  | succ n ih =>
+    rw [List.range_succ, List.filter_append, List.length_append, ih]
+    by_cases h : a ≤ n ∧ n < b
+    · simp [h]; omega
+    · simp [h]; omega
+
+theorem count_range_outside (n g f : Nat) (h : g ≤ f + 1) :
+    ((List.range n).filter (fun k => decide (k < g ∨ f + 1 ≤ k))).length = min g n + (n - (f + 1)) := by
+  induction n with
+  | zero => simp
+  | succ n ih =>
+    rw [List.range_succ, List.filter_append, List.length_append, ih]
+    by_cases h' : n < g ∨ f + 1 ≤ n
+    · simp [h']; omega
+    · simp [h']; omega
+
+open Model.Stats in
+/-- positions relative to the `linear` quantile in a strictly increasing sample: with `f = ⌊(n−1) q⌋`,
+    `s[k] > Q ↔ k ≥ f + 1` and `s[k] < Q ↔ k < g`, `g = f` if `(n−1) q` is an integer and `f + 1` otherwise -/
+theorem quantile_index (s : List Rat) (hs : s.Pairwise (fun a b => a < b)) (hne : s ≠ []) (q : Rat)
+    (hq0 : 0 ≤ q) (hq1 : q ≤ 1) :
+    let vi := ((s.length : Rat) - 1) * q
+    ∃ f g : Nat, (f : Int) = vi.floor ∧ f < s.length ∧ g = (if (vi.floor : Rat) = vi then f else f + 1) ∧
+      (∀ k (hk : k < s.length), decide (s[k] > quantileLinear s q) = decide (f + 1 ≤ k)) ∧
+      (∀ k (hk : k < s.length), decide (s[k] < quantileLinear s q) = decide (k < g)) := by
+  intro vi
+  obtain ⟨f, hf, hlt, hlo, heq, hhi⟩ := quantileLinear_bracket s hs hne q hq0 hq1
+  have hfr : ((f : Nat) : Rat) = (vi.floor : Rat) := by
+    have := congrArg (fun z : Int => (z : Rat)) hf
+    simpa using this
+  refine ⟨f, _, hf, hlt, rfl, ?_, ?_⟩
+  · intro k hk
+    rw [decide_eq_decide]
+    constructor
+    · intro hgt
+      by_contra hc
+      have := strict_getElem_le s hs k f hk hlt (by omega)
+      linarith
+    · intro hge
+      have h1 := hhi (by omega)
+      have := strict_getElem_le s hs (f + 1) k (by omega) hk hge
+      linarith
+  · intro k hk
+    rw [decide_eq_decide]
+    by_cases hint : (vi.floor : Rat) = vi
+    · have hQ : s[f] = quantileLinear s q := heq.mpr (by rw [hfr]; exact hint.symm)
+      rw [if_pos hint, ← hQ]
+      constructor
+      · intro hl
+        by_contra hc
+        have := strict_getElem_le s hs f k hlt hk (by omega)
+        linarith
+      · intro hkf
+        exact List.pairwise_iff_getElem.mp hs k f hk hlt hkf
+    · have hQ : s[f] ≠ quantileLinear s q := fun h => hint (by rw [← hfr]; exact (heq.mp h).symm)
+      have hQlt : s[f] < quantileLinear s q := lt_of_le_of_ne hlo hQ
+      rw [if_neg hint]
+      constructor
+      · intro hl
+        by_contra hc
+        have h1 := hhi (by omega)
+        have := strict_getElem_le s hs (f + 1) k (by omega) hk (by omega)
+        linarith
+      · intro hkf
+        have := strict_getElem_le s hs k f hk hlt (by omega)
+        linarith
+
+theorem floor_mono (a b : Rat) (h : a ≤ b) : a.floor ≤ b.floor :=
+  Rat.le_floor_iff.mpr (le_trans (floor_le' a) h)
+
+theorem sumR_mono_nat (n : Nat) (f g : Nat → Nat) (h : ∀ k, k < n → f k ≤ g k) : sumR n f ≤ sumR n g := by
+  induction n with
+  | zero => simp
+  | succ n ih =>
+    rw [sumR_succ, sumR_succ]
+    have := ih (fun k hk => h k (by omega))
+    have := h n (by omega)
+    omega
+
+theorem sumR_const_nat (n c : Nat) : sumR n (fun _ => c) = n * c := by
+  induction n with
+  | zero => simp
+  | succ n ih => rw [sumR_succ, ih]; ring
+
+theorem count_flatMap_list (ts : List Nat) (g : Nat → List Rat) (p : Rat → Bool) :
+    ((ts.flatMap g).filter p).length = (ts.map (fun t => ((g t).filter p).length)).sum := by
+  induction ts with
+  | nil => simp
+  | cons a t ih => simp [List.flatMap_cons, List.filter_append, ih]
+
+theorem flat_count_list (x : Data) (ts : List Nat) (I J : Nat) (p : Rat → Bool) :
+    ((flat x ts I J).filter p).length = (ts.map (fun t => sumIJ I J (fun i j => if p (x t i j) then 1 else 0))).sum := by
+  unfold flat
+  rw [count_flatMap_list]
+  congr 1
+  apply List.map_congr_left
+  intro t _
+  unfold sumIJ
+  rw [count_flatMap_range]
+  apply sumR_congr; intro i _
+  exact count_map_range J (fun j => x t i j) p
+
 end Lemmas.Metrics
